@@ -197,6 +197,68 @@ def run(ctx):
                 else:
                     r3.excepted(key, '%s: %s' % rv, loc=fn.loc(b))
 
+    # ------------------------------------------------------------------ R4
+    r4 = ctx.rule('C13.R4', 'backdating equality is structural: every PartialEq reachable from a tracked query\'s values_equal on a project type is derived, or compares every observable field', floor=20, floor_what='equality impls under values_equal')
+    ve = sorted(k for k in fx.fns if k.endswith('salsa::function::Configuration>::values_equal') and 'trust_hir' in k)
+    if len(ve) < len(roots):
+        r4.bad('anchor-missing|values_equal', 'found %d values_equal bodies for %d tracked queries' % (len(ve), len(roots)))
+    eq_impl = {}
+    for im in fx.impls:
+        if re.match(r'core::cmp::PartialEq(<.*>)?$', im.get('trait', '')):
+            for _, m in im['methods']:
+                if m.endswith('::eq'):
+                    eq_impl[m] = im
+    all_reads = None
+    seen_eq = set()
+    for v in ve:
+        for n in sorted(cg.reach([v])):
+            im = eq_impl.get(n)
+            if im is None or n in seen_eq or not im['self'].startswith(('trust_hir', 'trust_syntax')):
+                continue
+            seen_eq.add(n)
+            r4.saw()
+            ty = im['self'].split('<')[0]
+            key = 'eq|%s' % ty.split('::', 1)[1]
+            rec = fx.fns.get(n)
+            if im.get('derived'):
+                r4.ok(key)
+                continue
+            adt = fx.adts.get(ty)
+            if adt is None or rec is None or adt.get('enum'):
+                r4.bad(key, 'salsa compares results of a tracked query with a hand-written PartialEq for %s that cannot be checked field by field: an equality that ignores part of the value makes salsa keep stale dependents (backdating)' % ty, loc='%s:%d' % (rec['file'], rec['line']) if rec else None)
+                continue
+            fields = [f[0] for f in adt['variants'][0]['fields']]
+            tname = ty.split('::')[-1]
+            read = set()
+            todo, done = [n], set()
+            while todo:     # the eq body and the closures/helpers of the same impl it calls
+                x = todo.pop()
+                if x in done or x not in fx.fns:
+                    continue
+                done.add(x)
+                for ch in field_reads(fx.fns[x]):
+                    for f in ch:
+                        if '.' in f and f.rsplit('.', 1)[0].endswith(tname):
+                            read.add(f.rsplit('.', 1)[1])
+                todo.extend(c for c in fx.closures_of(x))
+            missing = [f for f in fields if f not in read]
+            if missing and all_reads is None:
+                all_reads = {}
+                for k2, rec2 in fx.fns.items():
+                    if k2 == n or k2 in derived:
+                        continue
+                    for ch in field_reads(rec2):
+                        for f in ch:
+                            if '.' not in f:
+                                continue
+                            all_reads.setdefault(f.rsplit('.', 1)[0].split('::')[-1] + '.' + f.rsplit('.', 1)[1], k2)
+            observable = [f for f in missing if (tname + '.' + f) in (all_reads or {})]
+            if not observable:
+                r4.ok(key, detail='hand-written, compares every observable field')
+            else:
+                r4.bad(key, 'the hand-written PartialEq for %s ignores the field(s) %s, which other code reads (e.g. %s): salsa uses this equality to decide whether dependents of a tracked query must re-run, so a change confined to those fields leaves other files\' answers stale' % (
+                    ty, ', '.join(observable), all_reads[tname + '.' + observable[0]]), loc='%s:%d' % (rec['file'], rec['line']))
+
 
 def _must_pass_on_some(fn, wb, targets):
     """remove_source_text: `if self.sources.remove(..).is_none() { return }` — on the Some side every path passes targets"""
